@@ -9,7 +9,9 @@ use super::{
     },
     style::FoldStyle,
     table,
-    util::{get_parenthesized_args_untyped, has_parenthesized_args, is_only_one_and},
+    util::{
+        get_parenthesized_args_untyped, has_parenthesized_args, is_comment_node, is_only_one_and,
+    },
     ArenaDoc, Context, Mode, PrettyPrinter,
 };
 use crate::ext::StrExt;
@@ -156,6 +158,22 @@ impl<'a> PrettyPrinter<'a> {
             .next_back()
             .is_some_and(|child| child.kind() == SyntaxKind::LineComment);
 
+        // The rows (implicit arrays) that are followed by a semicolon.
+        let rows_before_semicolon: Vec<_> = {
+            let children = children.as_slice();
+            (children.iter().enumerate())
+                .filter(|(i, child)| {
+                    child.kind() == SyntaxKind::Array
+                        && (children[i + 1..].iter())
+                            .find(|it| {
+                                !matches!(it.kind(), SyntaxKind::Space) && !is_comment_node(it)
+                            })
+                            .is_some_and(|it| it.kind() == SyntaxKind::Semicolon)
+                })
+                .map(|(_, child)| child.span())
+                .collect()
+        };
+
         let mut peek_hashed_arg = false;
         let inner = self.convert_flow_like_iter(ctx, children, |ctx, child| {
             let at_hashed_arg = peek_hashed_arg;
@@ -179,7 +197,16 @@ impl<'a> PrettyPrinter<'a> {
                         if is_ends_with_hashed_expr(arg.to_untyped().children()) {
                             peek_hashed_arg = true;
                         }
-                        FlowItem::spaced(self.convert_arg(ctx, arg))
+                        let doc = match child.cast::<Array>() {
+                            Some(array)
+                                if rows_before_semicolon.contains(&child.span())
+                                    && !self.attr_store.is_format_disabled(child) =>
+                            {
+                                self.convert_array_impl(ctx, array, true)
+                            }
+                            _ => self.convert_arg(ctx, arg),
+                        };
+                        FlowItem::spaced(doc)
                     } else {
                         FlowItem::none()
                     }
